@@ -34,6 +34,9 @@ func c07FamilyA() []c07version {
 		mk("A7-call-removed", "type R struct {\n\tA int\n\tB map[string]int\n\tC *R\n}\n\nfunc use2(x []R) []R {\n\treturn deriveClone(x)\n}\n"),
 		{"A7t-call-in-test-file-and-nested-call", pkgFiles{"a.go": "package m\n\ntype R struct {\n\tA int\n\tB map[string]int\n\tC *R\n}\n\nfunc use2(x []R) bool {\n\treturn deriveEqualC(deriveClone(x), x)\n}\n",
 			"a_test.go": "package m\n\nfunc useT(a, b *R) bool {\n\treturn deriveEqual(a, b)\n}\n"}},
+		// an external test package lives in the same directory and has no derive calls of its own
+		{"A7x-external-test-package", pkgFiles{"a.go": "package m\n\ntype R struct {\n\tA int\n\tB map[string]int\n\tC *R\n}\n\nfunc use2(x []R) []R {\n\treturn deriveClone(x)\n}\n",
+			"x_test.go": "package m_test\n\nvar Sink = 1\n"}},
 		mk("A8-no-derive-calls", "type R struct {\n\tA int\n\tB map[string]int\n\tC *R\n}\n\nfunc use2(x []R) []R {\n\treturn x\n}\n"),
 	}
 }
